@@ -100,6 +100,7 @@ type BlobProj struct {
 	SPKilled                       bool
 	Pools                          []uint64
 	Rewards                        uint64
+	SPIdent                        string // who this stake pool belongs to: delegate wallet, service charge, delegate pool ids and owners
 }
 
 type ValProj struct {
@@ -353,9 +354,11 @@ func (r *Run) Snapshot() *Snap {
 		if sp != nil {
 			bp.SPPresent = true
 			bp.Offers, bp.SPKilled, bp.MinStake, bp.Rewards = sp.TotalOffers, sp.Killed, sp.MinStake, sp.Reward
+			bp.SPIdent = fmt.Sprintf("%s|%v", sp.Wallet, sp.Charge)
 			for _, dp := range sp.Pools {
 				bp.Pools = append(bp.Pools, dp.Balance)
 				bp.Rewards += dp.Reward
+				bp.SPIdent += "|" + dp.PoolID + ":" + dp.Delegate
 			}
 		}
 		s.Blob = append(s.Blob, bp)
